@@ -57,7 +57,7 @@ func runZCutScenario(seed int64) *scenario {
 		}
 		stream = append(stream, f.encode()...)
 	}
-	nmsg := 1 + r.Intn(3)
+	nmsg := 1 + r.Intn(4)
 	for i := 0; i < nmsg; i++ {
 		n := []int{0, 1, 5, 60, 300, 1500, 5000}[r.Intn(7)]
 		plain := make([]byte, n)
@@ -182,6 +182,14 @@ func runZCutScenario(seed int64) *scenario {
 		}
 		if err == nil {
 			fail("JoinMessages stopped without an error")
+		}
+		if err == io.EOF && t.term != nil {
+			// a clean end of the joined stream (io.EOF) is what a reader of it takes for "no more messages";
+			// it can only be right when the transport itself ended cleanly
+			fail("JoinMessages ended with io.EOF after %d of %d bytes although the transport failed with %v", len(got), len(want), t.term)
+		}
+		if err == io.EOF && len(got) < len(want) && cut == len(stream) {
+			fail("JoinMessages ended with io.EOF after %d bytes although all %d messages (%d bytes with terminators) had arrived", len(got), len(msgs), len(want))
 		}
 		return sc
 	}
